@@ -1820,6 +1820,18 @@ pub fn check_c03(p: &Prob, st: &Sets, r: &SolveResp) -> Result<(), String> {
     let (ov, od) = (o.f("obj_val"), o.f("obj_val_dual"));
     let ap = u.xpx_mag + u.qx_mag + 1e-12 * pobj.abs();
     let ad = u.xpx_mag + u.bz_mag + 1e-12 * dobj.abs();
+    if (!ov.is_finite() || !od.is_finite()) && !matches!(r.status, Solved | AlmostSolved) {
+        // after a breakdown the homogeneous iterate can have diverged (τ ~ 1e149 observed after
+        // 150 iterations of a run ending NumericalError): the solver's internal x'Px = (τ·x)'P(τ·x)
+        // overflows to inf and inf/inf = NaN, although the τ-normalised point returned to the user
+        // is moderate.  Same overflow artefact as for the residuals below; exempt only when the
+        // internal magnitudes really are in the overflow range.
+        let vmax = r.x.iter().chain(&r.s).chain(&r.z).fold(0.0f64, |a, v| a.max(v.abs()));
+        let tau = o.f("tau").abs();
+        if tau.is_nan() || tau * vmax.max(1e-30) > 1e140 || vmax > 1e140 {
+            return Ok(());
+        }
+    }
     if !((ov - pobj).abs() <= ap) {
         return Err(format!("{}: obj_val = {:e} but x'Px/2+q'x = {:e} (allowance {:e})", name, ov, pobj, ap));
     }
